@@ -31,10 +31,11 @@ REPORTED = [
     {"power": True, "mode": 2, "temp": 24.0, "fan": 102, "swing": 0, "humidity": 40, "display_on": True},
     {"power": False, "mode": 4, "temp": 17.5, "fan": 40, "swing": 0xF, "eco": True, "sleep": True, "fahrenheit": True, "freeze": True,
      "follow_me": True, "purifier": True, "humidity": 65, "aux_heat": True, "display_on": False},
-    {"power": True, "mode": 6, "temp": 30.5, "fan": 60, "swing": 0xC, "turbo": True, "humidity": 70, "indep_aux": True, "display_on": True},
+    {"power": True, "mode": 6, "temp": 30.5, "fan": 60, "swing": 0xC, "turbo": True, "humidity": 70, "indep_aux": True, "display_on": True,
+     "display_level": 3},      # display on at an intermediate level of the 3-bit field
     {"power": True, "mode": 1, "temp": 13.0, "fan": 80, "swing": 0x3, "humidity": 35, "display_on": False},
     # a unit reporting values that are not presets of what it advertises (custom fan speed 55, half-degree setpoint)
-    {"power": True, "mode": 2, "temp": 22.5, "fan": 55, "swing": 0xC, "humidity": 47, "display_on": True},
+    {"power": True, "mode": 2, "temp": 22.5, "fan": 55, "swing": 0xC, "humidity": 47, "display_on": True, "display_level": 6},
 ]
 
 CAP_PAGES = [[rd.cap_record(0x0210, 5), rd.cap_record(0x0214, 1), rd.cap_record(0x0215, 1), rd.cap_record(0x0212, 1), rd.cap_record(0x0224, 1),
@@ -144,6 +145,9 @@ def reported_state(rep_i, capabilities):
 
 
 def cap_pages_for(capabilities):
+    if capabilities == "partial":
+        # a unit that advertises exactly one of the property-backed features (vertical swing angle)
+        return [CAP_PAGES[0], [rd.cap_record(0x0009, 1)]]
     if capabilities == "nodisplay":
         # the same unit, except that its capability report does not mention display control (0x0224) at all
         return [[r for r in CAP_PAGES[0] if r[:2] != b"\x24\x02"], CAP_PAGES[1]]
@@ -214,7 +218,7 @@ def expected_state(rep_i, exps, breeze_control=False):
 
 def judge_valid(st: Stats, case, code, model, net, exps, rep_i):
     prob = None
-    want, props, beep = expected_state(rep_i, exps, breeze_control=bool(case.get("capabilities")))
+    want, props, beep = expected_state(rep_i, exps, breeze_control=case.get("capabilities") in (True, "nodisplay"))
     if code != ("exit", 0):
         prob = f"exit status {code}"
     elif model.state != want:
@@ -254,6 +258,12 @@ def run_shard(shard, tier) -> Stats:
                 code, model, net, dev = run_cli(settings, rep_i, 2, capabilities=True)
                 prob = judge_valid(st, case, code, model, net, exps, rep_i)
                 st.ev((tuple(settings), rep_i, "caps"), "applied" if not prob else "wrong", True)
+                if any(isinstance(t, tuple) for t, _ in exps):
+                    # property-backed settings against a unit that advertises only one such feature: still sent as asked
+                    case = {**case, "label": label + " --capabilities (unit advertises one property-backed feature only)", "capabilities": "partial"}
+                    code, model, net, dev = run_cli(settings, rep_i, 2, capabilities="partial")
+                    prob = judge_valid(st, case, code, model, net, exps, rep_i)
+                    st.ev((tuple(settings), rep_i, "caps-partial"), "applied" if not prob else "wrong", True)
                 if any(s_.lower().startswith("display_on") for s_ in settings):
                     case = {**case, "label": label + " --capabilities (unit does not advertise display control)", "capabilities": "nodisplay"}
                     code, model, net, dev = run_cli(settings, rep_i, 2, capabilities="nodisplay")
